@@ -76,7 +76,8 @@ def run(ctx):
         args1 = ic.py_args(data1)
         D0 = diffuser.diffusivity(*args0); D1 = diffuser.diffusivity(*args1)
         scale = max(np.abs(D1).max(), 1e-300)
-        tol = 1e-9 * scale + 1e-13 * scale * min(ic.rate_spread(data1), 1e9)
+        # float conditioning of the singular solve: ~1e3 eps x (ratio of the largest to the smallest rate); beyond 1e12 nothing is resolved
+        tol = 1e-9 * scale + 1e-13 * scale * min(ic.rate_spread(data1), 1e12)
         wmin_model = np.linalg.eigvalsh(Dm1 - Dm0).min()
         wmin = np.linalg.eigvalsh(D1 - D0).min()
         ctx.case((name, str(data), k, delta), nontrivial=bool(np.linalg.eigvalsh(D1 - D0).max() > 1e-9 * scale),
